@@ -177,6 +177,13 @@ func SpecialProfiles() []string {
 		"profile: x\nprefixes: {ex: \"http://ex.org/\"}\nviolation: [v]\nvalidations:\n  v:\n    targetClass: ex.T\n    rego: {message: m}\n",
 		"profile: x\nprefixes: {ex: \"http://ex.org/\"}\nviolation: [v]\nvalidations:\n  v:\n    targetClass: ex.T\n    rego: \"$result = (\"\n",
 		"profile: x\nvalidations: " + deep + "\n", "profile: x\nvalidations: " + deepMap + "\n",
+		// anchors and aliases, including aliases to an enclosing node
+		"profile: x\nprefixes: {ex: \"http://ex.org/\"}\nviolation: [v]\nvalidations:\n  v: &self\n    targetClass: ex.T\n    not: *self\n",
+		"profile: x\nprefixes: {ex: \"http://ex.org/\"}\nviolation: [v]\nvalidations:\n  v:\n    targetClass: ex.T\n    and: &items\n      - propertyConstraints: {ex.a: {minCount: 1}}\n      - and: *items\n",
+		"profile: x\nprefixes: {ex: \"http://ex.org/\"}\nviolation: [v]\nvalidations:\n  v:\n    targetClass: ex.T\n    propertyConstraints: &pc\n      ex.a:\n        nested:\n          propertyConstraints: *pc\n",
+		"profile: x\nprefixes: {ex: \"http://ex.org/\"}\nviolation: [v, w]\nvalidations:\n  v:\n    targetClass: ex.T\n    propertyConstraints: &shared\n      ex.a: {minCount: 1}\n  w:\n    targetClass: ex.T\n    propertyConstraints: *shared\n",
+		"profile: x\nprefixes: &p {ex: \"http://ex.org/\"}\nviolation: &l [v]\nwarning: *l\nvalidations: &vals\n  v:\n    targetClass: ex.T\n    or:\n      - *vals\n",
+		"profile: &n x\nvalidations: {*n : {targetClass: *n}}\n",
 	}
 }
 
